@@ -364,6 +364,8 @@ def run(ctx, rep):
                         "panics inside lsp-server / serde (trusted)"]
     rep.assumptions += ["lsp-server's Connection/handle_shutdown implement the shutdown/exit handshake as documented",
                         "send() on the channel fails only when the client is gone"]
+    from rules import c09_durrange
+    c09_durrange.run(ctx, rep, rid="R-C12-durrange")
     entries = entry_bodies(ctx, rep, [LSP + "::run", "ironplcc::lsp::start_with_connection", "ironplcc::lsp::start"])
     r = rep.rule("R-C12-panic", "every panic-capable construct reachable from the LSP message loop is discharged, justified or a known finding",
                  floor=60, floor_what="sites")
